@@ -159,6 +159,8 @@ package resharing
 //@ define rs2m1slot(m) = (!isnil(m) && istype(msgcontent(m), "*ecdsa/resharing.DGRound2Message1") && cast(msgcontent(m), "*ecdsa/resharing.DGRound2Message1") != nil)
 //@ define rs4m1slot(m) = (!isnil(m) && istype(msgcontent(m), "*ecdsa/resharing.DGRound4Message1") && cast(msgcontent(m), "*ecdsa/resharing.DGRound4Message1") != nil)
 
+// a member of the new committee other than the party itself
+//@ define rsNewPeer(round, p) = (p != nil && 0 <= p.Index && p.Index < rsNewN(round) && p.Index != round.ReSharingParameters.Parameters.partyID.Index && round.ReSharingParameters.newParties.partyIDs[p.Index] == p)
 //@ func (*round5).Start
 //@   props C06 C05 C04
 //@   requires round != nil && round.round4 != nil && round.round4.round3 != nil && round.round4.round3.round2 != nil && round.round4.round3.round2.round1 != nil && round.round4.round3.round2.round1.base != nil && ecRsWF(round) && ecRsIdx(round)
@@ -167,6 +169,7 @@ package resharing
 //@   modifies *
 //@   ensures [C04.a-continuing-member-keeps-its-old-share] (rsNew(round.ReSharingParameters) && old(round.input.Xi) != nil && old(round.input.Xi) != old(round.temp.newXi)) ==> val(old(round.input.Xi)) == old(val(round.input.Xi))
 //@   ensures [C04.key-data-emitted-exactly-once-and-only-on-success] (result == nil ==> sent(old(round.end)) == old(sent(round.end)) + 1) && (result != nil ==> sent(old(round.end)) == old(sent(round.end)))
+//@   ensures [C05.a-failing-factorisation-proof-blames-exactly-its-sender-in-the-new-committee] (result != nil && !old(round.started)) ==> (len(result.culprits) == 1 && rsNewPeer(round, result.culprits[0]))
 //@   loop 0 invariant [new-member-state-still-holds] (forall j in 0..rsNewN(round) :: (j != round.ReSharingParameters.Parameters.partyID.Index ==> (rs2m1slot(round.temp.dgRound2Message1s[j]) && rs4m1slot(round.temp.dgRound4Message1s[j]))))
 //@   loop 0 invariant round.started
 //@   loop 0 invariant sent(round.end) == old(sent(round.end))
